@@ -25,6 +25,7 @@ type Config struct {
 	MinPackets       int  // keep adding conversations (beyond MaxConversations) until the scenario has this many packets
 	OverlapPercent   int  // share of scenarios whose capture files overlap in time (several sensors), see layoutSensors
 	EqualStampPercent int // share of packet pairs of different conversations that get the same timestamp
+	FragmentPercent   int // share of IPv4 packets with at least 16 bytes behind the IP header that are captured as IP fragments
 	SlowPercent      int  // share of scenarios in which about a quarter of the gaps between packets are 1-4 minutes (flows lasting longer than the importer's 5 min timeouts without ever idling that long); needs LongGaps
 
 	// AvoidSeqWrapDisorder steers away from TCP connections that combine sequence
@@ -41,7 +42,7 @@ type Config struct {
 
 // DefaultConfig is the space of DESIGN.md §4.2 / C05.
 func DefaultConfig() Config {
-	return Config{MinConversations: 1, MaxConversations: 8, MaxFlights: 6, MaxFlightBytes: 30000, MaxDatagrams: 10, MaxCaptures: 5, LongGaps: true, OverlapPercent: 38, SlowPercent: 30, EqualStampPercent: 6}
+	return Config{MinConversations: 1, MaxConversations: 8, MaxFlights: 6, MaxFlightBytes: 30000, MaxDatagrams: 10, MaxCaptures: 5, LongGaps: true, OverlapPercent: 38, SlowPercent: 30, EqualStampPercent: 6, FragmentPercent: 4}
 }
 
 // LargeConfig yields scenarios of at least minPackets packets (real-size captures).
@@ -831,7 +832,7 @@ func cut(t *rapid.T, s *Scenario, cfg Config) {
 	for ci := 0; ci+1 < len(pos); ci++ {
 		groups = append(groups, s.Packets[pos[ci]:pos[ci+1]])
 	}
-	finishCaptures(t, s, groups)
+	finishCaptures(t, s, groups, cfg)
 }
 
 // layoutSensors assigns the packets to capture files non-contiguously, the way
@@ -896,7 +897,7 @@ func layoutSensors(t *rapid.T, s *Scenario, cfg Config) {
 		groups = keepTailsTogether(s, groups)
 	}
 	sort.SliceStable(groups, func(i, j int) bool { return groups[i][0].TimeUS < groups[j][0].TimeUS })
-	finishCaptures(t, s, groups)
+	finishCaptures(t, s, groups, cfg)
 	for i, a := range s.Captures {
 		for _, b := range s.Captures[i+1:] {
 			if b.Packets[0].TimeUS < a.Packets[len(a.Packets)-1].TimeUS {
@@ -948,7 +949,7 @@ func keepTailsTogether(s *Scenario, groups [][]*Packet) [][]*Packet {
 
 // finishCaptures turns groups of packets (each sorted by time, ordered by their
 // first packet) into capture files: link type, format, padding, file name.
-func finishCaptures(t *rapid.T, s *Scenario, groups [][]*Packet) {
+func finishCaptures(t *rapid.T, s *Scenario, groups [][]*Packet, cfg Config) {
 	ncap := len(groups)
 	order := make([]int, ncap)
 	for i := range order {
@@ -976,6 +977,19 @@ func finishCaptures(t *rapid.T, s *Scenario, groups [][]*Packet) {
 		all4, all6 := true, true
 		for i, p := range cp.Packets {
 			p.Capture, p.Index = ci, i
+			// the path fragments now and then: an IPv4 datagram arrives in two or three pieces, in order or last first
+			if l4 := fragmentable(s, p); cfg.FragmentPercent > 0 && l4 >= 16 && percent(t, "fragmented", cfg.FragmentPercent) {
+				n := rapid.IntRange(1, min(2, l4/8-1)).Draw(t, "fragment cuts")
+				last := 0
+				for k := 0; k < n; k++ {
+					hi := (l4-1)/8 - (n - 1 - k)
+					c := rapid.IntRange(last/8+1, hi).Draw(t, "fragment cut") * 8
+					p.FragCuts = append(p.FragCuts, c)
+					last = c
+				}
+				p.FragReverse = rapid.Bool().Draw(t, "fragments reversed")
+				s.Fragmented++
+			}
 			if s.Conversations[p.Conv].IPv6 {
 				all4 = false
 			} else {
@@ -1000,4 +1014,20 @@ func finishCaptures(t *rapid.T, s *Scenario, groups [][]*Packet) {
 		cp.Name = fmt.Sprintf("cap%c_%d.%s", 'a'+order[ci], ci, ext)
 		s.Captures = append(s.Captures, cp)
 	}
+}
+
+// fragmentable returns the number of bytes behind the IP header of an IPv4 packet (0 for IPv6).
+func fragmentable(s *Scenario, p *Packet) int {
+	c := s.Conversations[p.Conv]
+	if c.IPv6 {
+		return 0
+	}
+	if c.Proto == "UDP" {
+		return 8 + len(p.Payload)
+	}
+	n := 20 + len(p.Payload)
+	if p.SYN {
+		n += 8
+	}
+	return n
 }
